@@ -13,3 +13,4 @@ import AGV.Props.C35
 #print axioms AGV.Props.C35.c35_pinned_runs_the_mutation
 #print axioms AGV.Props.C35.c35_toggles_independent
 #print axioms AGV.Props.C35.c35_src_get_branches
+#print axioms AGV.Props.C35.c35_unmarked_unsafe_iff
